@@ -101,7 +101,10 @@ func TestVerifCsvDriver(t *testing.T) {
 			fmt.Sscan(f[3], &sep)
 			cfg.separator = rune(sep)
 		case "csv":
-			raw, _ := hex.DecodeString(f[1])
+			var raw []byte
+			if len(f) > 1 && f[1] != "-" {
+				raw, _ = hex.DecodeString(f[1])
+			}
 			fmt.Fprintln(w, "begin")
 			func() {
 				defer func() {
